@@ -4,7 +4,7 @@ from .. import smt, runner, extract
 
 
 def run(tier, seed):
-    obs, fns = rules.emit_obligations("C07", want=("partial",))
+    obs, fns = rules.emit_obligations("C07", want=("partial", "sym"))   # "sym": the same rule in the symmetric face integrals
     for o in obs:
         if ".emit." in o.name and not o.expect_sat: o.replay = rules.replay_pair
     o2, f2 = rules.constructed_iff_selected_obligations("C07"); obs += o2; fns += f2
